@@ -90,7 +90,7 @@ def readStdin (inp : List Sym) : List Char := stdinLoop (inp.length + 1) inp []
 def readFile (inp : List Sym) : Option (List Char) := decode inp
 
 /-- Reading stdin verbatim (`input.read_to_string(&mut buf)?`): what the proposed repair
-    `patches/c14-import-stdin-verbatim.patch` does; selected by the translator when import.rs contains it. -/
+    `patches/C14-import-stdin-verbatim.patch` does; selected by the translator when import.rs contains it. -/
 def readStdinVerbatim (inp : List Sym) : Option (List Char) := decode inp
 
 /-! ## The specification side: what happens to a valid text -/
